@@ -372,13 +372,41 @@ def _is_the_raw(e: ast.expr, raw: ast.Call, fn: FunctionInfo) -> bool:
     return False
 
 
+def _core_text_params(cx: Ctx) -> dict[str, str]:
+    """core parameter -> "text" (the wrapper's text variable, filtered in place or not at all) | "filtered" (a separate
+    GFM-filtered copy made by the wrapper) | "unfiltered" (the wrapper's text while a separate filtered copy exists)"""
+
+    def build():
+        out = {cx.p_text: "text"}
+        if cx.delegate is None:
+            return out
+        ef = Filter(cx, cx.entry, cx.entry_text)
+        fvar = ef.target if ef.stmt is not None else None
+        separate = fvar is not None and fvar != cx.entry_text
+        for i, a in enumerate(cx.delegate.args):
+            if isinstance(a, ast.Name) and i < len(cx.fi.params):
+                if a.id == cx.entry_text:
+                    out[cx.fi.params[i]] = "unfiltered" if separate else "text"
+                elif separate and a.id == fvar:
+                    out[cx.fi.params[i]] = "filtered"
+        for k_ in cx.delegate.keywords:
+            if isinstance(k_.value, ast.Name) and k_.arg in cx.fi.params:
+                if k_.value.id == cx.entry_text:
+                    out[k_.arg] = "unfiltered" if separate else "text"
+                elif separate and k_.value.id == fvar:
+                    out[k_.arg] = "filtered"
+        return out
+
+    return cx.corpus.cache("c17-core-text-params", build)
+
+
 def _is_source_text(cx: Ctx, flt: Filter, e: ast.expr, depth: int = 0) -> bool | None:
     """True: the (optionally filtered) text parameter; False: a computed string; None: not understood."""
     if depth > 4:
         return None
     if isinstance(e, ast.Name):
-        if e.id == cx.p_text:
-            return True
+        if e.id == cx.p_text or e.id in _core_text_params(cx):
+            return True  # the document's text, as written or as a filtered copy made by the wrapper (which one: R2)
         if e.id in cx.fi.params:
             return False
         defs = cx.defs_of(e.id)
@@ -409,9 +437,9 @@ def _is_source_text(cx: Ctx, flt: Filter, e: ast.expr, depth: int = 0) -> bool |
     return None
 
 
-def _stmt_of_safe(cx: Ctx, n: ast.AST):
+def _stmt_of_safe(cx: Ctx, n: ast.AST, cfg=None):
     try:
-        return cx.cfg.stmt_of(n)
+        return (cfg or cx.cfg).stmt_of(n)
     except Unsupported:
         return None
 
@@ -628,8 +656,17 @@ def _inline_closure(cx: Ctx, e: ast.expr):
 
 
 def _split_add(e: ast.expr) -> list[ast.expr]:
+    """the summands of a list expression: ``a + b`` and ``[x, *b]`` (= ``[x] + b``)"""
     if isinstance(e, ast.BinOp) and isinstance(e.op, ast.Add):
         return _split_add(e.left) + _split_add(e.right)
+    if isinstance(e, (ast.List, ast.Tuple)) and any(isinstance(x, ast.Starred) for x in e.elts):
+        out: list[ast.expr] = []
+        for x in e.elts:
+            if isinstance(x, ast.Starred):
+                out.extend(_split_add(x.value))
+            else:
+                out.append(ast.List(elts=[x], ctx=ast.Load()))
+        return out
     return [e]
 
 
@@ -692,11 +729,16 @@ def r1_pass_through(corpus: Corpus, rep: Report, tier: str):
                     callee = corpus.find_function(m.resolve(dotted(p_.func)))
                     if callee is not None and any(isinstance(c, ast.Call) and _resolves(callee.module, c.func, "docutils.nodes.raw") for c in callee.local_nodes()):
                         pts.append(p_)
+            if not pts and not any(p_ is cx.delegate for p_ in parts):
+                rep.violation("C17.R1", k, m.site(r), f"`{short(r, 60)}` ({_where(r)}) in the wrapper returns without the raw node: on this path the HTML is dropped from the document instead of passing through (e.g. when the warning that accompanies it is suppressed)")
+                continue
             if len(pts) != 1 or any(p_ is cx.delegate for p_ in parts):
                 raise Unsupported(f"wrapper return not understood: {short(r, 70)}")
             a0 = pts[0].args[0] if pts[0].args else None
-            if isinstance(a0, ast.Name) and a0.id == cx.entry_text:
-                rep.ok("C17.R1", k, m.site(r), f"pass-through of `{cx.entry_text}`")
+            efl = Filter(cx, ent, cx.entry_text)
+            efvar = efl.target if efl.stmt is not None else None
+            if isinstance(a0, ast.Name) and (a0.id == cx.entry_text or (efvar is not None and a0.id == efvar and all((isinstance(d, ast.Name) and d.id == cx.entry_text) or d is efl.call or (isinstance(d, ast.Tuple) and _stmt_of_safe(cx, d, efl.cfg) is efl.stmt) for d in cx.defs_in(ent, efvar)))):
+                rep.ok("C17.R1", k, m.site(r), f"pass-through of `{a0.id}`")
             elif isinstance(a0, (ast.Call, ast.BinOp, ast.JoinedStr, ast.Subscript, ast.Constant, ast.Attribute)):
                 rep.violation("C17.R1", k, m.site(r), f"the wrapper passes `{short(a0, 40)}` through instead of its source text parameter `{cx.entry_text}`")
             else:
@@ -2190,7 +2232,7 @@ def r2_gfm_filter(corpus: Corpus, rep: Report, tier: str):
         rep.ok("C17.R2", k, m.site(flt.stmt))
     elif isinstance(flt.string, ast.Name) and flt.string.id in (p_text, fvar):
         # `raw_text = text; if gfm_only: raw_text = RE.sub(.., text)`: the filtered copy is a second variable
-        others = [d for d in cx.defs_in(fi, fvar) if not (d is flt.call or (isinstance(d, ast.Tuple) and _stmt_of_safe(cx, d) is flt.stmt))]
+        others = [d for d in cx.defs_in(fi, fvar) if not (d is flt.call or (isinstance(d, ast.Tuple) and _stmt_of_safe(cx, d, flt.cfg) is flt.stmt))]
         if not others or not all(isinstance(d, ast.Name) and d.id == p_text for d in others):
             raise Unsupported(f"`{fvar}` (the filtered text) has definitions other than `{p_text}` and the filter")
         rep.ok("C17.R2", k, m.site(flt.stmt), f"filtered copy kept in `{fvar}`")
@@ -2238,7 +2280,7 @@ def r2_gfm_filter(corpus: Corpus, rep: Report, tier: str):
         if fvar != p_text and isinstance(n, ast.Name) and n.id == p_text and isinstance(n.ctx, ast.Load):
             # the unfiltered parameter may feed the filter, the initial copy and the tokenizer, but must not be emitted
             p_ = parent(n)
-            if isinstance(p_, ast.Call) and n in p_.args and dotted(p_.func) and not _is_tokenizer_call(cx, p_) and p_ is not flt.call:
+            if isinstance(p_, ast.Call) and n in p_.args and dotted(p_.func) and not _is_tokenizer_call(cx, p_) and p_ is not flt.call and p_ is not cx.delegate:
                 callee = corpus.find_function(m.resolve(dotted(p_.func)))
                 if callee is not None and any(isinstance(c, ast.Call) and _resolves(callee.module, c.func, "docutils.nodes.raw") for c in callee.local_nodes()):
                     unfiltered_emitted.append(n)
@@ -2259,6 +2301,27 @@ def r2_gfm_filter(corpus: Corpus, rep: Report, tier: str):
             rep.violation("C17.R2", k, m.site(st), f"`{short(hdr, 60)}` ({kind}) is reachable in GFM mode without the tag filter having run: disallowed tags reach the output on that path")
         else:
             rep.ok("C17.R2", k, m.site(st), kind)
+    # a separate filtered copy made by the wrapper: the core must emit that copy, never the text as written
+    if cx.entry is not cx.fi and fi is cx.entry and fvar != p_text:
+        roles = _core_text_params(cx)
+        core, cm = cx.fi, cx.fi.module
+        has_filtered = any(v == "filtered" for v in roles.values())
+        for r in sorted((n for n in core.local_nodes() if isinstance(n, ast.Return) and n.value is not None), key=lambda n: n.lineno):
+            for part in [q for p0 in _split_add(r.value) for q in (_split_add(_inline_closure(cx, p0)) if _inline_closure(cx, p0) is not None else [p0])]:
+                if not (isinstance(part, ast.Call) and dotted(part.func)):
+                    continue
+                callee = corpus.find_function(cm.resolve(dotted(part.func)))
+                if callee is None or not any(isinstance(c, ast.Call) and _resolves(callee.module, c.func, "docutils.nodes.raw") for c in callee.local_nodes()):
+                    continue
+                a0 = part.args[0] if part.args else None
+                k = f"{core.fq}|emits the filtered copy|{short(r, 90)}|{_where(r)}"
+                role = roles.get(a0.id) if isinstance(a0, ast.Name) else None
+                if role == "filtered":
+                    rep.ok("C17.R2", k, cm.site(r), f"`{a0.id}` is the wrapper's `{fvar}`")
+                elif role in ("unfiltered", "text") or not has_filtered:
+                    rep.violation("C17.R2", k, cm.site(r), f"`{short(part, 60)}` ({_where(r)}) passes `{short(a0, 20) if a0 is not None else '?'}` through - the text as written - although the wrapper keeps the GFM-filtered text in a separate copy (`{fvar}`): in gfm_only mode disallowed tags such as <script> reach the output unfiltered on this path" + ("" if has_filtered else f"; the filtered copy is not even handed to {core.name}"))
+                else:
+                    raise Unsupported(f"cannot tell which text `{short(part, 50)}` emits")
     # the wrapper in front of the core function must not emit text the filter has not seen
     if cx.entry is not cx.fi and fi is cx.fi:
         ecfg = get_cfg(cx.entry)
@@ -3555,7 +3618,9 @@ def mutants(corpus: Corpus):
     pstrip = find_node(fi, lambda n: isinstance(n, ast.Attribute) and n.attr == "children" and isinstance(parent(n), ast.Call) and isinstance(parent(n).func, ast.Attribute) and parent(n).func.attr == "extend")
     if pstrip is not None:
         add("c17-paragraph-children-stripped", "C17.R1", splice(src, pstrip, ast.get_source_segment(src, pstrip.value) + ".strip().children"), "inner white space kept", note="seed class: blank between two inline elements of a <p> dropped")
-    if flt.stmt is not None and flt.if_stmt is not None and flt.target == cx.p_text and gate is not None:
+    if flt.stmt is not None and flt.fn is fi and flt.if_stmt is not None and flt.target == cx.p_text and gate is not None:
+        # (only while the filter sits in the converting function itself; with a filtering wrapper the class is covered by
+        # c17-filtered-copy-passed-on-but-one-site-unfiltered)
         # the filtered text kept in a second variable, one pass-through site left on the unfiltered parameter
         lines = src.splitlines(keepends=True)
         f0, f1 = flt.if_stmt.lineno - 1, flt.if_stmt.end_lineno
@@ -3655,6 +3720,35 @@ def mutants(corpus: Corpus):
         tokp = hin.params[1] if len(hin.params) > 1 else "token"
         ind_ = " " * first_.col_offset
         add("c17-inline-shortcut-bypasses-html-to-nodes", "C17.R1", splice(hin.module.src, first_, f'if "html_image" not in self.md_config.enable_extensions:\n{ind_}    self.current_node.append(nodes.raw("", {tokp}.content, format="html"))\n{ind_}    return\n{ind_}' + ast.get_source_segment(hin.module.src, first_)), "routes to html_to_nodes", rel_=hin.module.rel, note="seed class: some inline tokens never reach html_to_nodes (GFM filter bypassed)")
+    # ---- wrapper classes (round 15) ----
+    if cx.entry is not cx.fi and cx.delegate is not None:
+        ent = cx.entry
+        hr = find_stmt(ent, lambda s_: isinstance(s_, ast.Return) and s_.value is not None and not any(c is cx.delegate for c in ast.walk(s_.value)) and "default_html" in unparse(s_.value))
+        msgv = find_stmt(ent, lambda s_: isinstance(s_, ast.Assign) and isinstance(s_.targets[0], ast.Name) and "create_warning" in unparse(s_.value))
+        if hr is not None and msgv is not None:
+            ind = " " * hr.col_offset
+            add("c17-wrapper-drops-html-when-warning-suppressed", "C17.R1", splice(src, hr, f"if {msgv.targets[0].id} is None:\n{ind}    return []\n{ind}" + ast.get_source_segment(src, hr)), "return []", note="seed class: no raw node when the accompanying warning is suppressed")
+        ef = Filter(cx, ent, cx.entry_text)
+        if ef.stmt is not None and ef.if_stmt is not None and ef.target == cx.entry_text and gate is not None:
+            import re as _re2
+            t_ = cx.entry_text
+            lines = src.splitlines(keepends=True)
+            e0, e1 = ent.node.lineno - 1, ent.node.end_lineno
+            c0, c1 = fi.node.lineno - 1, fi.node.end_lineno
+            esrc, csrc = "".join(lines[e0:e1]), "".join(lines[c0:c1])
+            indf = " " * ef.if_stmt.col_offset
+            fseg = ast.get_source_segment(src, ef.if_stmt)
+            e2 = esrc.replace(fseg, f"raw_text = {t_}\n{indf}" + fseg.replace(f"{t_}, _ =", "raw_text, _ =", 1).replace(f"{t_} =", "raw_text =", 1), 1)
+            dseg = ast.get_source_segment(src, cx.delegate)
+            e2 = e2.replace(dseg, dseg.replace(f"({t_},", f"({t_}, raw_text,", 1), 1)
+            e2 = _re2.sub(r"default_html\(\s*" + t_ + r"\b", "default_html(raw_text", e2)
+            c2 = _re2.sub(r"(def " + fi.name + r"\(\s*" + cx.p_text + r": str,)", r"\1 raw_text: str,", csrc, count=1)
+            keep = ast.get_source_segment(src, gate.body[-1])
+            c2 = _re2.sub(r"default_html\(\s*" + cx.p_text + r"\b", "default_html(raw_text", c2)
+            c2 = c2.replace(_re2.sub(r"default_html\(\s*" + cx.p_text + r"\b", "default_html(raw_text", keep), keep, 1)
+            if e2 != esrc and c2 != csrc and "raw_text: str" in c2:
+                new_src = "".join(lines[:e0]) + e2 + "".join(lines[e1:c0]) + c2 + "".join(lines[c1:]) if e0 < c0 else "".join(lines[:c0]) + c2 + "".join(lines[c1:e0]) + e2 + "".join(lines[e1:])
+                add("c17-filtered-copy-passed-on-but-one-site-unfiltered", "C17.R2", new_src, "emits the filtered copy", note="seed class: wrapper hands (text, raw_text) to the core; one pass-through site emits text")
     # ---- round-14 repairs: reverts and partial weakenings ----
     if hin is not None:
         kw = find_node(hin, lambda n: isinstance(n, ast.keyword) and isinstance(n.value, ast.Constant) and n.value.value is True)
